@@ -139,6 +139,43 @@ def run_one(run):
                 continue
             run.violate("lazy-equals-eager", signature(sc, aspect), f"subject {j} (max_batch={mb}, {sim.describe()}): {msg}")
         subs.append(sub)
+    # ---- a third subject: this pipeline computed together with a second, different one in ONE dask graph ------------------
+    if ref is not None and ch.bool(0.25, "joint-compute"):
+        import copy as _copy
+        import dask
+
+        sc2 = _copy.deepcopy(sc)
+        sc2["potential"]["atoms"]["seed"] = (sc["potential"]["atoms"]["seed"] + 1) % 2**32
+        if "fp" in sc2["potential"]:
+            sc2["potential"]["fp"]["seed"] = sc2["potential"]["fp"]["seed"] + 17
+        try:
+            reset_process_state(scene.knob_overrides(knobs, wg))
+            ref2 = pipeline(sc2, lazy=False, max_batch="auto")
+        except (HarnessError, InjectedCrash):
+            raise
+        except Exception:  # noqa: BLE001
+            ref2 = None
+        if ref2 is not None:
+            sim3 = run.add_sim(Sim(ch, draw_sim_config(ch)))
+            try:
+                with sim3:
+                    la = pipeline(sc, lazy=True, max_batch=knobs["max_batch"])
+                    lb = pipeline(sc2, lazy=True, max_batch=knobs["max_batch"])
+                    la, lb = (la if isinstance(la, list) else [la]), (lb if isinstance(lb, list) else [lb])
+                    arrays = dask.compute(*[x.array for x in la + lb], optimize_graph=sim3.optimize_graph)
+                for x, arr in zip(la + lb, arrays):
+                    x._array = arr
+                for which, rr, ll in (("first", ref, la), ("second", ref2, lb)):
+                    for aspect, msg in oracle.compare_results(rr, ll, rtol, atol):
+                        if aspect == "dtype":
+                            continue
+                        run.violate("lazy-equals-eager", signature(sc, aspect, {"joint": True}), f"joint compute, {which} pipeline: {msg}")
+                run.note("reach_joint_compute")
+            except (HarnessError, InjectedCrash):
+                raise
+            except Exception as e:  # noqa: BLE001
+                run.violate("fail-together", signature(sc, "raise", {"raised": "lazy", "exc": type(e).__name__, "joint": True}),
+                            f"joint compute of two pipelines raised {type(e).__name__}: {e} at {tb(e)}")
     if ref is not None:
         rl = ref if isinstance(ref, list) else [ref]
         run.digest(*[r.array for r in rl])
